@@ -446,9 +446,69 @@ def c15_7(ctx):
     return out
 
 
+def _header_writer_cells(ctx):
+    """Share.mnemonic evaluated with the word list and the checksum as stand-ins (word i is `w<i>`, the checksum three zero words): for every
+    value of every header field on an all-zero and an all-one background, and for 128- and 256-bit share values with every bit pattern class,
+    the words are the 10-bit groups of  id(15) ‖ exponent(5) ‖ group index(4) ‖ group threshold-1(4) ‖ group count-1(4) ‖ member index(4) ‖
+    member threshold-1(4) ‖ zero padding ‖ value, followed by the checksum words.  None when outside the evaluator's subset"""
+    from sa.cells import Evaluator, Obj, Raised, Undecided
+    spec = "shamir:Share.mnemonic"
+    mod, fn = rl.get(ctx, spec)
+    words = {}
+    for i in range(1024):
+        words[i] = "w%d" % i
+        words["w%d" % i] = i
+    seen_chk = []
+
+    def chk(cs, data):
+        seen_chk.append(list(data))
+        return [0, 0, 0]
+    ext = {"SLIP39": words, "rs1024_create_checksum": chk}
+    layout = [("id", 25, 15), ("exponent", 20, 5), ("group_index", 16, 4), ("group_threshold", 12, 4), ("group_count", 8, 4), ("member_index", 4, 4), ("member_threshold", 0, 4)]
+    headers = [0, (1 << 40) - 1, 0xAAAAAAAAAA, 0x5555555555]
+    for _, off, width in layout:
+        vals_ = range(1 << width) if width <= 5 else [1 << i for i in range(width)] + [((1 << width) - 1) ^ (1 << i) for i in range(width)]
+        for v_ in vals_:
+            for bg in (0, (1 << 40) - 1):
+                headers.append((bg & ~(((1 << width) - 1) << off)) | (v_ << off))
+    n = 0
+    try:
+        for hdr in headers:
+            for nbits, value in ((128, int.from_bytes(bytes(range(1, 17)), "big")), (256, (1 << 255) | 1)) if hdr in headers[:4] else ((128, 0x0123456789ABCDEF0123456789ABCDEF),):
+                n += 1
+                f_ = {name: (hdr >> off) & ((1 << width) - 1) for name, off, width in layout}
+                me = Obj("shamir", "Share", {"share_bit_length": nbits, "id": f_["id"], "exponent": f_["exponent"], "group_index": f_["group_index"],
+                                              "group_threshold": f_["group_threshold"] + 1, "group_count": f_["group_count"] + 1, "member_index": f_["member_index"],
+                                              "member_threshold": f_["member_threshold"] + 1, "value": value, "bytes": value.to_bytes(nbits // 8, "big")})
+                del seen_chk[:]
+                try:
+                    r = Evaluator(ctx.repo, externals=ext, max_steps=1000000).call(spec, [], self_obj=me)
+                except Raised as x:
+                    return [ctx.bad(spec, "mnemonic() raises %s for the header %#012x" % (x.name, hdr), fn, mod, key="header-writer")]
+                pad = (10 - nbits % 10) % 10
+                allbits = (hdr << (pad + nbits)) | value
+                nw = (40 + pad + nbits) // 10
+                want = [(allbits >> 10 * (nw - 1 - i)) & 1023 for i in range(nw)]
+                got = [words.get(w) for w in r.split(" ")] if isinstance(r, str) else None
+                if got != want + [0, 0, 0] or seen_chk[-1:] != [want]:
+                    if got is not None and len(got) >= 4 and got[:4] != want[:4]:
+                        gh = (got[0] << 30) | (got[1] << 20) | (got[2] << 10) | got[3]
+                        badf = [name for name, off, width in layout if (gh >> off) & ((1 << width) - 1) != (hdr >> off) & ((1 << width) - 1)]
+                        return [ctx.bad(spec, "the header words of a share with %s do not carry the field %s at its SLIP39 position (header written %#012x, SLIP39 %#012x)" % (
+                            ", ".join("%s=%d" % (k_, v_) for k_, v_ in f_.items()), badf[0] if badf else "?", gh, hdr), fn, mod, key="header-writer")]
+                    return [ctx.bad(spec, "the %d-bit share value is not written as zero padding ‖ value in 10-bit words after the header, or the checksum does not cover exactly "
+                                          "the data words" % nbits, fn, mod, key="header-writer")]
+    except Undecided:
+        return None
+    ctx.count("cells", n)
+    return [ctx.ok(spec, "header: id(15) exponent(5) group index(4) group threshold-1(4) group count-1(4) member index(4) member threshold-1(4) then padded value "
+                         "(%d shares evaluated: every value of every field on two backgrounds, 128- and 256-bit values)" % n, fn, mod, key="header-writer")]
+
+
 def c15_8(ctx):
     """header bit widths agree between Share.mnemonic (writer) and Share.parse (reader)"""
     out = []
+    cells_w = _header_writer_cells(ctx)
     mod, fn = rl.get(ctx, "shamir:Share.mnemonic")
     # writer: sequence of (shift, field) from `all_bits <<= k` / `all_bits |= field`
     seq = []
@@ -485,7 +545,9 @@ def c15_8(ctx):
     got = [(a.replace("self.", ""), b) for a, b in widths]
     want = [("id", None), ("exponent", "5"), ("group_index", "4"), ("group_threshold - 1", "4"), ("group_count - 1", "4"), ("member_index", "4"), ("member_threshold - 1", "4"),
             ("value", "padding + self.share_bit_length")]
-    if got == want:
+    if cells_w is not None:
+        out += cells_w
+    elif got == want:
         out.append(ctx.ok("shamir:Share.mnemonic", "header: id(15) exponent(5) group index(4) group threshold-1(4) group count-1(4) member index(4) member threshold-1(4) then padded value", fn, mod, key="header-writer"))
     elif len(got) == len(want):
         out.append(ctx.bad("shamir:Share.mnemonic", "header packing %s differs from SLIP39 %s" % (got, want), fn, mod, key="header-writer"))
